@@ -21,6 +21,7 @@ type clientHello struct {
 	ALPNProtos []string
 
 	hasECHOuterExtensions bool
+	noExtensions          bool
 	tls13                 bool
 	echExt                *echExt
 }
@@ -95,6 +96,9 @@ func (c *clientHello) marshal(aad bool) ([]byte, error) {
 				b.AddBytes(c.LegacyCompressionMethods)
 			})
 
+			if c.noExtensions && len(c.Extensions) == 0 {
+				return
+			}
 			b.AddUint16LengthPrefixed(func(b *cryptobyte.Builder) {
 				for _, ext := range c.Extensions {
 					b.AddUint16(ext.Type)
@@ -181,7 +185,11 @@ func parseClientHello(buf []byte) (*clientHello, error) {
 	//}
 
 	var extensions cryptobyte.String
-	if !s.ReadUint16LengthPrefixed(&extensions) {
+	if s.Empty() {
+		// RFC 8446 section 4.1.2: pre-TLS 1.3 clients may omit the
+		// extensions field entirely.
+		hello.noExtensions = true
+	} else if !s.ReadUint16LengthPrefixed(&extensions) {
 		return nil, ErrDecodeError
 	}
 
